@@ -157,7 +157,7 @@ ATOMS = ([("write2", [n], f"write2:{n}") for n in (1, 4, 5, 8)] +
           ("fs_poll_start", [], "fs_poll_start")] +
          [("spawn", [n, h], f"spawn:{n}:{h}") for n in (0, 1, 2, 3) for h in (0, 1)] +
          [("fs_event_start", [w], f"fs_event_start:{w}") for w in (0, 1)] +
-         [("environ", [n], f"environ:{n}") for n in (1, 3, 7)])
+         [("environ", [n], f"environ:{n}") for n in (0, 1, 3, 7)])
 LABEL_ERRNOS = {"alloc": ["ENOMEM"], "sys:socket": ["EMFILE", "ENOMEM"], "sys:bind": ["ENOMEM"],
                 "sys:socketpair": ["EMFILE", "ENFILE"], "sys:fork": ["ENOMEM"], "sys:inotify_add_watch": ["ENOMEM", "ENOSPC"]}
 
@@ -482,13 +482,16 @@ def run(ctx):
         ctx.notes["fault_points_per_scenario"][s] = len(pts)
         specs += [f"{s} {p}" for p in pts]
         specs += [f"{s} {st}" for st in storms(bases[s])]
-    npairs = ctx.scale(600, 40000)
-    for _ in range(npairs):
-        s = ctx.rng.choice(SCENARIOS)
-        if len(singles[s]) >= 2:
-            a, b = ctx.rng.choice(singles[s]), ctx.rng.choice(singles[s])
-            if a != b:
-                specs.append(f"{s} {a} {b}")
+    if ctx.quick:
+        for _ in range(600):
+            s = ctx.rng.choice(SCENARIOS)
+            if len(singles[s]) >= 2:
+                a, b = ctx.rng.choice(singles[s]), ctx.rng.choice(singles[s])
+                if a != b:
+                    specs.append(f"{s} {min(a, b)} {max(a, b)}")
+    else:                                   # thorough: every unordered pair of single faults of every scenario
+        for s in SCENARIOS:
+            specs += [f"{s} {a} {b}" for a, b in itertools.combinations(singles[s], 2)]
     specs = list(dict.fromkeys(specs))
     ctx.log(f"{len(specs)} fault runs over {len(SCENARIOS)} scenarios")
     results = run_batch(ctx, exe, specs)
@@ -534,9 +537,13 @@ def run(ctx):
         "ENOMEM on EPOLL_CTL_DEL": "removal does not allocate (uv__io_check_fd aborts on it, linux.c:750)",
         "EEXIST on EPOLL_CTL_MOD/DEL": "the kernel only reports it for ADD",
     }
+    ctx.notes["modelled_not_flagged"] = [
+        "uv_spawn: when fork() itself fails the stdio streams are opened all the same (process.c:1046-1052), the parent pipe "
+        "ends stay open inside the caller's uv_pipe_t handles until uv_close (theorem uv_spawn_fork_failure; harness agrees)",
+        "uv_pipe_connect2 never returns socket()/connect() failures: delayed_error + callback (theorem pipe_connect2_always_owes_callback)"]
     ctx.notes["faults_fired"] = dict(stats["fired"])
     ctx.notes["abort_sites_hit"] = stats["aborts"]
     ctx.notes["runs"] = {k: stats[k] for k in ("runs", "not_fired", "stalls", "transparent_runs")}
     ctx.cov["rule"] = ("one evaluation = one scenario run under a fault schedule (all single alloc/syscall faults of every "
-                       "scenario, EINTR storms, sampled pairs); distinct = (scenario, faults that fired, last return codes); "
+                       "scenario, EINTR storms, pairs: 600 sampled in the quick tier, all unordered pairs in the thorough tier); distinct = (scenario, faults that fired, last return codes); "
                        "non-trivial = at least one fault fired")
